@@ -153,6 +153,7 @@ type shared struct {
 	claimed map[string]bool
 	paths   int
 	stop    bool
+	nviol   int
 }
 
 type Exec struct {
@@ -354,7 +355,7 @@ func (e *Exec) explore(fn *ssa.Function) {
 			switch end.kind {
 			case "done":
 				e.St.PathsDone++
-				if len(e.St.Samples) < 3 {
+				if len(e.St.Samples) < 3 || (e.St.PathsDone%97 == 0 && len(e.St.Samples) < 8) {
 					e.St.Samples = append(e.St.Samples, Violation{Harness: e.harness, Kind: "witness", Inputs: e.evalInputs(e.model), Path: e.pathString(), Tags: e.tags})
 				}
 			case "assume":
@@ -775,6 +776,12 @@ func (e *Exec) recordViolation(kind, msg string, m map[string]uint64) {
 	if len(e.St.Violations) < 50 {
 		e.St.Violations = append(e.St.Violations, v)
 	}
+	e.sh.mu.Lock()
+	e.sh.nviol++
+	if e.sh.nviol >= 12 {
+		e.sh.stop = true // enough counterexamples: stop exploring this harness
+	}
+	e.sh.mu.Unlock()
 }
 
 func (e *Exec) unsupported(msg string) {
